@@ -4,6 +4,7 @@ import (
 	"flag"
 	"fmt"
 	"os"
+	"runtime"
 	"sort"
 	"strings"
 	"sync"
@@ -68,6 +69,7 @@ func dischargeAll(s *Solver, obls []*Obligation, workers int) []OblOutcome {
 	}
 	close(ch)
 	wg.Wait()
+	longRetries := 0 // at most three obligations get the long third attempt (a real violation must still be reported promptly)
 	// obligations that were not discharged under load are retried alone, with a doubled time limit, before they are
 	// reported (solver time-outs under CPU contention must not become alarms)
 	for i, oc := range out {
@@ -85,9 +87,38 @@ func dischargeAll(s *Solver, obls []*Obligation, workers int) []OblOutcome {
 		}
 		if r.Status == "unsat" || (r.Status == "sat" && oc.Res.Status != "sat") {
 			out[i] = OblOutcome{oc.O, r}
+			continue
+		}
+		// still undecided: when the machine is heavily loaded (other checks running beside this one) a time-out says
+		// little, so the obligation gets one more attempt with a long limit before it is reported
+		if r.Status != "sat" && longRetries < 3 && machineLoaded() {
+			longRetries++
+			s3 := newSolver(s.outDir, 4*s.fullT)
+			s3.quickT = s.fullT
+			r3 := s3.solve(oc.O, false)
+			for k, v := range s3.totalSecs {
+				s.totalSecs[k] += v
+			}
+			for k, v := range s3.counts {
+				s.counts[k] += v
+			}
+			if r3.Status == "unsat" {
+				out[i] = OblOutcome{oc.O, r3}
+			}
 		}
 	}
 	return out
+}
+
+// machineLoaded: the 1-minute load average exceeds three quarters of the CPUs.
+func machineLoaded() bool {
+	b, err := os.ReadFile("/proc/loadavg")
+	if err != nil {
+		return false
+	}
+	var l1 float64
+	fmt.Sscanf(string(b), "%f", &l1)
+	return l1 > 0.75*float64(runtime.NumCPU())
 }
 
 func cmdList(args []string) {
